@@ -587,4 +587,29 @@ def outsideAll (b : Box K) (lam : Lams K) (pts : List (V3 K)) (incl : Bool) : Li
   pts.map (fun p => outside b lam p incl)
 end arrays
 
+/-! #### the crystal-family constructors (`Box.cubic` … `Box.triclinic`): their own refusals, then `cls(a=…, …, gamma=…)` -/
+
+/-- a call of one of the seven classmethods. -/
+inductive Ctor (K : Type) where
+  | cubic (a : K)
+  | hexagonal (a c : K)
+  | tetragonal (a c : K)
+  | trigonal (a alpha : K)
+  | orthorhombic (a b c : K)
+  | monoclinic (a b c beta : K)
+  | triclinic (a b c alpha beta gamma : K)
+
+/-- the definition a constructor hands to `Box(**kwargs)` (origin left to the default `(0,0,0)`); `none` = its own `ValueError`. -/
+def Ctor.params? [Zero K] [OfNat K 90] [OfNat K 120] [LT K] [LE K] [DecidableEq K] [DecidableLE K] :
+    Ctor K → Option (Params K)
+  | .cubic a => some (.abc a a a 90 90 90 ⟨0, 0, 0⟩)
+  | .hexagonal a c => if a = c then none else some (.abc a a c 90 90 120 ⟨0, 0, 0⟩)
+  | .tetragonal a c => if a = c then none else some (.abc a a c 90 90 90 ⟨0, 0, 0⟩)
+  | .trigonal a al => if 120 ≤ al then none else some (.abc a a a al al al ⟨0, 0, 0⟩)
+  | .orthorhombic a b c => if a = b ∨ a = c then none else some (.abc a b c 90 90 90 ⟨0, 0, 0⟩)
+  | .monoclinic a b c be =>
+    if a = b ∨ a = c then none else if be ≤ 90 then none else some (.abc a b c 90 be 90 ⟨0, 0, 0⟩)
+  | .triclinic a b c al be ga =>
+    if a = b ∨ a = c then none else if al = be ∨ al = ga then none else some (.abc a b c al be ga ⟨0, 0, 0⟩)
+
 end Atomman.C01
